@@ -154,5 +154,5 @@ def udp_frame(ep, d, payload, bad_csum=False):
 
 
 def quic_flow(qconn, ep):
-    items = [Item(udp_frame(ep, d, dg), dir=d, tag="quic") for d, dg in qconn.dgrams]
+    items = [Item(udp_frame(ep, g.dir, g.data), dir=g.dir, tag="quic", seg=g) for g in qconn.dgrams]
     return Flow("quic", ep, items, qconn, list(qconn.keylog))
